@@ -140,9 +140,9 @@ Definition canon_tz (o : option Z) : tz_sp :=
   end.
 Definition trim_frac (f : Z) : str :=
   if f =? 0 then [] else
-  let s9 := zfill 9 (to_dec (Z.to_N f)) in
-  if negb (f mod 1000 =? 0) then s9
-  else if negb (f mod 1000000 =? 0) then firstn 6 s9 else firstn 3 s9.
+  if negb (f mod 1000 =? 0) then zfill 9 (to_dec (Z.to_N f))
+  else if negb ((f / 1000) mod 1000 =? 0) then zfill 6 (to_dec (Z.to_N (f / 1000)))
+  else zfill 3 (to_dec (Z.to_N (f / 1000000))).
 
 Definition valid_date_value (v : xdate) : bool :=
   real_date (d_year v) (d_month v) (d_day v) && real_offset (d_offset v).
